@@ -150,10 +150,44 @@ def run_unit(unit):
             viol, detail = replay(inp)
         except ZeroDivisionError:
             viol, detail = False, {'note': 'division by zero'}
+        how = 'model'
+        if not viol:
+            # the model may rest on solver-chosen values of uninterpreted functions (cost correlations): before the counterexample is classed as
+            # not reproducible, the same obligation is replayed at a few plain points of the input domain
+            for pi in probe_points(inputs_vars):
+                try:
+                    v2, d2 = replay(pi)
+                except (ZeroDivisionError, FloatingPointError, ValueError):
+                    continue
+                if v2:
+                    viol, detail, inp, how = True, d2, pi, 'concrete point of the input domain (the solver model did not survive the uninterpreted functions)'
+                    break
         log['cex'].append({'obligation': name, 'finding': None, 'config': cfg, 'reproduced': bool(viol), 'inputs': inp, 'detail': detail,
-                           'how': 'model', 'attempts': []})
+                           'how': how, 'attempts': []})
         if viol:
             harness._CEX_SEEN[0] += 1
+
+    def probe_points(inputs_vars):
+        rng = {n: (lo, hi) for n, kind, lo, hi in spec if kind == 'real'}
+        for f, kk in ((0.6, 2.0), (0.3, 0.5), (0.85, 3.0)):
+            pi = {}
+            for n, var in inputs_vars.items():
+                if n == 'k':
+                    pi[n] = kk
+                elif n == 'delta':
+                    pi[n] = 0.01
+                elif z3.is_bool(var):
+                    pi[n] = True
+                else:
+                    lo, hi = rng.get(n, (0.0, 1.0))
+                    lo = 0.0 if lo is None else float(lo)
+                    hi = lo + 10.0 if hi is None else float(hi)
+                    # keep scaled values inside their ranges (x k) and rates small
+                    span = (hi - lo) / (4.0 if n in cost_names else 1.0)
+                    pi[n] = lo + span * f if lo >= 0 else span * f * 0.1
+                    if 'Rate' in n or n.endswith('RITC') or 'Price' in n:
+                        pi[n] = min(pi[n], 0.05 + 0.1 * f)
+            yield pi
 
     # (a) all cost inputs x k  =>  every levelized cost x k
     cost_names = [n for n, _, _ in COSTS if n in zv]
